@@ -118,6 +118,21 @@ def e2e_walk(w, tier, rng, g1, g2):
             w.send_e2e(sender, cid, p, size=30, shape=shape)
             while w.net.inflight:
                 w.deliver(w.net.inflight[0].seq)
+    # the rendezvous point turns cells round: a copy of each side's cell is sent back to its own sender
+    xaddr = (w.nodes["x"].address[0], w.nodes["x"].address[1])
+    for sender, cid in (("o", a), ("o2", b), ("o", a)):
+        p += 1
+        w.send_e2e(sender, cid, p, size=10)
+        for _ in range(12):
+            if not w.net.inflight:
+                break
+            d = w.net.inflight[0]
+            if d.dst == xaddr and len(d.data) > 29 and d.data[27] == 0:
+                w.dup(d.seq)
+                w.rp_reflect("x", w.net.inflight[-1].seq)
+            w.deliver(d.seq)
+        while w.net.inflight:
+            w.deliver(w.net.inflight[0].seq)
     for entry in sorted(r["cid"] for r in w.project()["relay"]["x"] if r["rdv"]):
         w.rp_forge("x", entry)
         while w.net.inflight:
@@ -188,7 +203,7 @@ def run(tier, seed, replay=None):
             hdr_e = w.header()
         finally:
             w.close()
-    K.validate_family(ctx, PID, e2e, "two_origins", hdr_e, "e2e", NONTRIVIAL | {"SendE2E", "RPForge"})
+    K.validate_family(ctx, PID, e2e, "two_origins", hdr_e, "e2e", NONTRIVIAL | {"SendE2E", "RPForge", "RPReflect"})
     dual = []
     for goal in ((1, 2) if tier == "quick" else (1, 2, 3)):
         w = R.world("line4", seed * 100 + 85 + goal, dual_stack=True)
